@@ -452,13 +452,6 @@ func runC17(args []string) error {
 		adjacent := g.r.chance(30)
 		implOK, panicked, refOK, src := evalHeader(c, groups, adjacent)
 		region := "malformed"
-		for _, gl := range groups {
-			for _, l := range gl {
-				if strings.Contains(l, "+build  ") || strings.Contains(l, ",,") || strings.Contains(l, "  amd64") {
-					region = "space-panic"
-				}
-			}
-		}
 		in := map[string]any{"kind": "rawheader", "ctx": c, "source": src}
 		cid := newID(in)
 		rawCases = append(rawCases, fmt.Sprintf("(%d%%N, %s, %s, %s)", cid, c.coq(), coqGroups(groups), coqOpt(!panicked, coqBool(implOK))))
